@@ -55,8 +55,9 @@ def ref_gradient(c, theta, x0):
     S0obs = S0[:, c.obs_idx, :]                                       # (n, p, nS)
     g = np.einsum("ij,ijk->k", d, Sobs)
     g0 = np.einsum("ij,ijk->k", d, S0obs)
-    scale = float(np.sum(np.abs(d) * (np.max(np.abs(Sobs), axis=2) if c.nP else 0 * d))) + 1e-12
-    scale0 = float(np.sum(np.abs(d) * np.max(np.abs(S0obs), axis=2))) + 1e-12
+    # integrated sensitivities carry an absolute error of the order of the integrator's atol (1e-10): floor of 1e-3 on max|S|
+    scale = float(np.sum(np.abs(d) * (np.maximum(np.max(np.abs(Sobs), axis=2), 1e-3) if c.nP else 0 * d))) + 1e-12
+    scale0 = float(np.sum(np.abs(d) * np.maximum(np.max(np.abs(S0obs), axis=2), 1e-3))) + 1e-12
     return {"cost": RL.cost(c.kind, c.y, yhat, c.spread, c.weights), "g": g, "g0": g0, "Sobs": Sobs, "yhat": yhat, "scale": scale, "scale0": scale0}
 
 
